@@ -111,11 +111,13 @@ var errClasses = []struct {
 	{regexp.MustCompile(`topic input message must be`), "topic-input-rejected"},
 	{regexp.MustCompile(`topic output message must be`), "topic-output-rejected"},
 	{regexp.MustCompile(`missing http rule`), "missing-http-rule"},
-	{regexp.MustCompile(`no array found in response|found multiple arrays|expected object schema`), "list-response-shape"},
+	{regexp.MustCompile(`no array found in response|found multiple arrays|expected object schema|method has no response body`), "list-response-shape"},
 	{regexp.MustCompile(`unknown enum value`), "list-enum-default"},
 	{regexp.MustCompile(`unresolved reference|unlinked ref`), "unresolved-ref"},
 	{regexp.MustCompile(`missing schema for entity|missing event oneof|event field is not oneof`), "entity-shape"},
+	{regexp.MustCompile(`(arrays|maps) of \S*Any are not supported`), "collection-of-any"},
 	{regexp.MustCompile(`unknown entity`), "unknown-entity"},
+	{regexp.MustCompile(`message oneof .* must contain at least one field`), "empty-event-oneof"},
 	{regexp.MustCompile(`syntax error`), "proto-syntax"},
 	{regexp.MustCompile(`index out of range|slice bounds out of range`), "index-out-of-range"},
 	{regexp.MustCompile(`interface conversion`), "type-assertion"},
@@ -196,6 +198,13 @@ func runChain(out *sink, op string, validateOnly bool) string {
 				// (repaired finding client:err:list-enum-default, fix b6c593a: a regression of the compile-side check)
 				out.fail("client:err:list-enum-default", "list method reaches "+bad+": "+r.detail)
 				out.count("pkg.bad-enum-default")
+				return "fail client"
+			}
+			if bad := Expect(spec).BadList; bad != "" && r.class == "err" && classify(r.detail) == "list-response-shape" {
+				// a method with a j5.list.v1.QueryRequest property whose response is not list shaped: the
+				// compiler accepts it, buildListRequest refuses the API (open finding)
+				out.fail("client:err:list-response-shape", "method "+bad+": "+r.detail)
+				out.count("pkg.bad-list-shape")
 				return "fail client"
 			}
 			out.fail(r.sig("client"), r.detail)
@@ -280,11 +289,6 @@ func runChain(out *sink, op string, validateOnly bool) string {
 				topics = append(topics, t.Name+"="+strings.Join(ms, "+"))
 			}
 		}
-	}
-	if len(spec.Entities) > 0 {
-		// entity expansion is C17's model; the summary line then only carries the declared services
-		act.Keys = nil
-		return "ok E " + act.String()
 	}
 	return "ok " + act.String() + " T:" + csv(topics, "-")
 }
@@ -394,37 +398,26 @@ func describe(out *sink, s *Spec) {
 
 func oracle(out *sink, spec *Spec, exp, act Summary, api *client_j5pb.API) {
 	// (1) exactly the declared services and methods, with the declared verb and path
-	if len(exp.Services) != len(act.Services) {
-		out.fail("client:services-differ", fmt.Sprintf("declared %d services, client API lists %d\nwant %s\ngot  %s", len(exp.Services), len(act.Services), exp, act))
+	compareServices(out, "client", exp.Services, act.Services, true)
+	// (1b) the same for what entities generate: the query service (Get / List / Events with the keys
+	// as path parameters; its list fields come from generated schemas and are left to the model)
+	// and the command services
+	if len(exp.Entities) != len(act.Entities) {
+		out.fail("client:entities-differ", fmt.Sprintf("declared %d entities, client API lists %d", len(exp.Entities), len(act.Entities)))
 	} else {
-		for i := range exp.Services {
-			es, as := exp.Services[i], act.Services[i]
-			if es.Name != as.Name {
-				out.fail("client:service-name", fmt.Sprintf("want %s got %s", es.Name, as.Name))
+		for i := range exp.Entities {
+			ee, ae := exp.Entities[i], act.Entities[i]
+			switch {
+			case ee.Name != ae.Name:
+				out.fail("client:entity-name", fmt.Sprintf("want %s got %s", ee.Name, ae.Name))
 				continue
+			case csv(ee.PK, "") != csv(ae.PK, ""):
+				out.fail("client:entity-primary-key", fmt.Sprintf("%s: want %v got %v", ee.Name, ee.PK, ae.PK))
+			case csv(ee.Events, "") != csv(ae.Events, ""):
+				out.fail("client:entity-events", fmt.Sprintf("%s: want %v got %v", ee.Name, ee.Events, ae.Events))
 			}
-			if len(es.Methods) != len(as.Methods) {
-				out.fail("client:methods-differ", fmt.Sprintf("service %s: declared %d methods, listed %d", es.Name, len(es.Methods), len(as.Methods)))
-				continue
-			}
-			for j := range es.Methods {
-				em, am := es.Methods[j], as.Methods[j]
-				at := es.Name + "." + em.Name
-				switch {
-				case em.Name != am.Name:
-					out.fail("client:method-name", fmt.Sprintf("%s: got %s", at, am.Name))
-				case em.Verb != am.Verb:
-					out.fail("client:verb", fmt.Sprintf("%s: declared %s, got %s", at, em.Verb, am.Verb))
-				case em.Path != am.Path:
-					out.fail("client:path", fmt.Sprintf("%s: declared %q, got %q", at, em.Path, am.Path))
-				case csv(em.P, "") != csv(am.P, "") || csv(em.Q, "") != csv(am.Q, "") || csv(em.B, "") != csv(am.B, "") || em.HasBody != am.HasBody:
-					out.fail("client:split", fmt.Sprintf("%s: want %s\ngot  %s", at, em, am))
-				case em.Resp != am.Resp:
-					out.fail("client:response", fmt.Sprintf("%s: want %q got %q", at, em.Resp, am.Resp))
-				case em.List != am.List:
-					out.fail("client:list-request", fmt.Sprintf("%s: list method=%v, client list request=%v", at, em.List, am.List))
-				}
-			}
+			compareServices(out, "client:entity-query", []ServiceSum{ee.Query}, []ServiceSum{ae.Query}, false)
+			compareServices(out, "client:entity-command", ee.Commands, ae.Commands, true)
 		}
 	}
 	// (2) generic, declaration-independent checks on every method of the client API
@@ -460,6 +453,46 @@ func oracle(out *sink, spec *Spec, exp, act Summary, api *client_j5pb.API) {
 	checkClosure(out, api)
 }
 
+// compareServices: names, order, verb, path, split, response (and list request presence) of the
+// methods (the list fields themselves are not in the property's statement: they are compared with the
+// model through the result line only); signatures are
+// <sigBase>:services-differ|service-name|methods-differ|method-name|verb|path|split|response|list-request
+func compareServices(out *sink, sigBase string, exp, act []ServiceSum, withList bool) {
+	if len(exp) != len(act) {
+		out.fail(sigBase+":services-differ", fmt.Sprintf("declared %d services, client API lists %d\nwant %v\ngot  %v", len(exp), len(act), exp, act))
+		return
+	}
+	for i := range exp {
+		es, as := exp[i], act[i]
+		if es.Name != as.Name {
+			out.fail(sigBase+":service-name", fmt.Sprintf("want %s got %s", es.Name, as.Name))
+			continue
+		}
+		if len(es.Methods) != len(as.Methods) {
+			out.fail(sigBase+":methods-differ", fmt.Sprintf("service %s: declared %d methods, listed %d", es.Name, len(es.Methods), len(as.Methods)))
+			continue
+		}
+		for j := range es.Methods {
+			em, am := es.Methods[j], as.Methods[j]
+			at := es.Name + "." + em.Name
+			switch {
+			case em.Name != am.Name:
+				out.fail(sigBase+":method-name", fmt.Sprintf("%s: got %s", at, am.Name))
+			case em.Verb != am.Verb:
+				out.fail(sigBase+":verb", fmt.Sprintf("%s: declared %s, got %s", at, em.Verb, am.Verb))
+			case em.Path != am.Path:
+				out.fail(sigBase+":path", fmt.Sprintf("%s: declared %q, got %q", at, em.Path, am.Path))
+			case csv(em.P, "") != csv(am.P, "") || csv(em.Q, "") != csv(am.Q, "") || csv(em.B, "") != csv(am.B, "") || em.HasBody != am.HasBody:
+				out.fail(sigBase+":split", fmt.Sprintf("%s: want %s\ngot  %s", at, em, am))
+			case em.Resp != am.Resp:
+				out.fail(sigBase+":response", fmt.Sprintf("%s: want %q got %q", at, em.Resp, am.Resp))
+			case withList && em.List != am.List:
+				out.fail(sigBase+":list-request", fmt.Sprintf("%s: list method=%v, client list request=%v", at, em.List, am.List))
+			}
+		}
+	}
+}
+
 func checkMethod(out *sink, svc string, m *client_j5pb.Method) {
 	at := svc + "." + m.Name
 	if m.Request == nil {
@@ -485,17 +518,18 @@ func checkMethod(out *sink, svc string, m *client_j5pb.Method) {
 	if !isGet && (m.Request.Body == nil || len(m.Request.QueryParameters) > 0) {
 		out.fail("client:body-verb-without-body", at)
 	}
+	// identity of a property = its proto field path (a flattened child has its parent's number in
+	// front; its JSON name may well equal a sibling's, which is the declaration's business)
 	seen := map[string]int{}
-	for _, n := range pnames {
-		seen[n]++
-	}
-	for _, n := range propNamesPB(m.Request.QueryParameters) {
-		seen[n]++
-	}
-	if m.Request.Body != nil {
-		for _, n := range propNamesPB(m.Request.Body.Properties) {
-			seen[n]++
+	ident := func(ps []*schema_j5pb.ObjectProperty) {
+		for _, p := range ps {
+			seen[fmt.Sprint(p.ProtoField)+" "+p.Name]++
 		}
+	}
+	ident(m.Request.PathParameters)
+	ident(m.Request.QueryParameters)
+	if m.Request.Body != nil {
+		ident(m.Request.Body.Properties)
 	}
 	for n, c := range seen {
 		if c != 1 {
